@@ -97,7 +97,7 @@ func tryFrame(name string, slot byte, hasCatch, hasFinally bool, pending string)
 			}
 			// the finally block itself completes abruptly (override rule)
 			switch pending {
-			case "f-throw":
+			case "f-throw", "cf-throw":
 				t.C = []*Node{lg(), thr()}
 			case "f-return":
 				t.C = []*Node{lg(), {K: Return}}
@@ -226,6 +226,7 @@ var frames = []frameDef{
 	tryFrame("try{@}finally-return", 'a', false, true, "f-return"),
 	tryFrame("try{@}finally-break", 'a', false, true, "f-break"),
 	tryFrame("try{@}finally-continue", 'a', false, true, "f-continue"),
+	tryFrame("try{@}catch-finally-throw", 'a', true, true, "cf-throw"),
 	tryFrame("catch{@}", 'b', true, false, ""),
 	tryFrame("catch{@}finally", 'b', true, true, ""),
 	tryFrame("finally{@}", 'c', false, true, "normal"),
